@@ -94,6 +94,9 @@ CAT = {
                                                   [A([0.5, 0.5, 0.]), A([0.5, 0., 0.5]), A([0., 0.5, 0.5]), A([0.5, 0., 0.]), A([0., 0.5, 0.]), A([0., 0., 0.5])],
                                                   [0.5 * np.ones(3)]], ['A', 'O', 'B']),
               dict(chem=1, cut=[0.51], interstitial=True)),
+    # tetragonal host, two interstitial classes whose sites are listed INTERLEAVED (A1,B1,A2,B2): sitelist [[0,2],[1,3]]
+    'TET4I': (lambda: crystal.Crystal(np.diag([1., 1., 1.3]), [[np.zeros(3)], [A([0.5, 0., 0.]), A([0.5, 0., 0.5]), A([0., 0.5, 0.]), A([0., 0.5, 0.5])]], ['H', 'i']),
+              dict(chem=1, cut=[0.75], interstitial=True, note='site classes are not contiguous index ranges')),
     'FCC_O': (lambda: crystal.Crystal(FCCL, [[np.zeros(3)], [A([0.5, 0.5, -0.5])]], ['Pd', 'H']),
               dict(chem=1, cut=[0.72, 1.01], interstitial=True)),
     'FCC_T': (lambda: crystal.Crystal(FCCL, [[np.zeros(3)], [A([0.25, 0.25, 0.25]), A([0.75, 0.75, 0.75])]], ['Pd', 'H']),
